@@ -17,6 +17,15 @@ chk("C02", "exploration",
     "trusts refcar's section table and stdlib/x-crypto hashes; cuts on section boundaries and past a CARv2 payload are exempt as the property states; zero-length (fully truncated) digests verify vacuously as multihash defines",
     "runtime monitoring: exhaustive truncation/bit-flip fault injection per archive with hash and clean-end oracles", "DESIGN.md §6 C02")
 
+chk("C03", "exploration",
+    "Runtime monitor: seeded payloads (duplicates, equal digest under two hash codes, identity, CIDv0, digest widths 0..80) in 5 container forms are indexed by GenerateIndex (both codecs) and LoadIndex(InsertionIndex) from 5 source kinds (seekable, *os.File, plain reader, 1-byte reader, Reader.DataReader) plus the file-path and read-or-generate front-ends; every GetAll/GetFirst/ForEach answer is compared with the key→offsets multiset of an independent scan, for every present CID and absent neighbours; option effects (StoreIdentityCIDs, ZeroLengthSectionAsEOF, MaxIndexCidSize) are predicted by the reference.",
+    "trusts refcar's scan; for the in-memory insertion index both digest-keyed and multihash-keyed answers are accepted",
+    "runtime monitoring: differential oracle (reference scan) over index query results", "DESIGN.md §6 C03")
+chk("C14", "exploration",
+    "Runtime monitor: ALL 2^n Next/SkipNext choice strings (n ≤ 6 quick, ≤ 10 thorough; random strings on 25-block archives) over seeded valid v1/v2/padded archives and 4 source kinds wrapped in position counters; every returned CID/block/BlockMetadata is compared with the reference section table, the clean end is required after the last block, and for CARv2 the highest source position read must not exceed the payload end.",
+    "trusts refcar's section table; Reader.DataReader() included as an additional seekable source",
+    "runtime monitoring: exhaustive operation-string enumeration per archive with reference-table oracle and byte counters on the source", "DESIGN.md §6 C14")
+
 NOT_YET = {}
 
 def main():
